@@ -147,7 +147,7 @@ def shapes(traces):
     """How far the recorded histories went beyond the exhaustive instances (maxima over all recorded states)."""
     mx = {'paths_denoting': 0, 'links': 0, 'layers_in_one_map': 0, 'handles_cached': 0, 'loads_of_one_handle': 0,
           'snapshot_entries': 0, 'key_depth_denoting': 0}
-    n = {'staged_moves': 0, 'implicit_maps': 0, 'load_faults': 0, 'shadowed_handles': 0, 'reloads': 0}
+    n = {'staged_moves': 0, 'composite_keys_set': 0, 'load_faults': 0, 'shadowed_handles': 0, 'reloads': 0}
     for t in traces:
         for e in t['events']:
             mx['paths_denoting'] = max(mx['paths_denoting'], len(e['den']))
@@ -160,7 +160,7 @@ def shapes(traces):
             n['load_faults'] += e['rk'] == 'exc' and e['ri'] == 'LoadFault'
             n['reloads'] += sum(1 for h in e['loaded'] if dict(map(tuple, e['nloads']))[h] > 1)
             if e['op'] == 'SetItem':
-                n['implicit_maps'] += len(e['a2']) > 1
+                n['composite_keys_set'] += len(e['a2']) > 1
                 # the stored node shows twice in the tables: moved out of a staging map
                 n['staged_moves'] += sum(1 for x in e['links'] if x[3] == e['a3']) > 1
             n['shadowed_handles'] += any(len({k for l in ls for k, _h in l}) < sum(len(l) for l in ls) for _m, ls in e['layers'])
